@@ -45,7 +45,16 @@ case "${1:-}" in
         for f in ":tokio" "-async:async-std" "-smol:smol"; do
             dir=${f%%:*}; rt=${f##*:}
             # the shim of each runtime is first bound to the real runtime
-            VERIF_CONFORMANCE_FILE=/verif/.target/c18-conformance.json /verif/.target$dir/release/mc conformance >/verif/.target/c18-$rt-conformance.log 2>&1 || { echo "MACHINERY-ERROR: shim conformance failed on $rt" >&2; cat /verif/.target/c18-$rt-conformance.log >&2; exit 2; }
+            VERIF_CONFORMANCE_FILE=/verif/.target/c18-conformance.json /verif/.target$dir/release/mc conformance >/verif/.target/c18-$rt-conformance.log 2>&1
+            cr=$?
+            if [ $cr -eq 1 ]; then
+                # the shim agrees with the real runtime, but hannibal's own runtime entry point does
+                # not behave as on the other runtimes: a finding, not a machinery problem
+                grep -E -A1 "^VIOLATION" /verif/.target/c18-$rt-conformance.log
+                rc=1
+            elif [ $cr -ne 0 ]; then
+                echo "MACHINERY-ERROR: shim conformance failed on $rt" >&2; cat /verif/.target/c18-$rt-conformance.log >&2; exit 2
+            fi
             VERIF_EXPORT_FILE=/verif/.target/c18-$rt-export.json VERIF_EVIDENCE_FILE=/verif/.target/c18-$rt-evidence.json \
                 /verif/.target$dir/release/mc check C18 "$tier"
             r=$?
